@@ -22,17 +22,26 @@ contract(T + "LoggedMessage.of_type", props=["C17"], types={"messages": LISTMSG,
                     "inv": [("exactly-the-messages-of-the-type-so-far-in-order", "GOT == EXPECT and len(seq(RESULT)) == len(GOT)")]}},
          ensures=[("exactly-the-messages-of-the-type-in-order", "GOT == EXPECT and len(seq(result)) == len(GOT)", ["C17"])])
 
-contract(T + "LoggedAction.of_type", props=["C17"], types={"messages": LISTMSG, "actionType": "Any"}, returns="list",
-         ghosts={"EXPECT": "seq", "CALLED": "seq", "TYPE": "Any"}, ghost_defaults={"EXPECT": "seq(())", "CALLED": "seq(())"},
-         after={"LoggedAction.fromMessages#*": [("CALLED", "CALLED + [level]")]},
+ENDST = "(dget(typed(%s, 'dict'), 'action_status') == 'succeeded' or dget(typed(%s, 'dict'), 'action_status') == 'failed')"
+FIRST = ("implies(len(OBJS) > 0, typed(seq(OBJS)[0], 'LoggedAction').startMessage == S0 and typed(seq(OBJS)[0], 'LoggedAction').endMessage == E0 "
+         "and S0 is not None and E0 is not None and is_dict(S0) and is_dict(E0) and " + ENDST % ("E0", "E0") + ")")
+contract(T + "LoggedAction.of_type", props=["C17"], types={"messages": LISTMSG, "actionType": "Any"}, returns="list[LoggedAction]",
+         ghosts={"EXPECT": "seq", "CALLED": "seq", "TYPE": "Any", "OBJS": "seq", "S0": "Any", "E0": "Any"},
+         ghost_defaults={"EXPECT": "seq(())", "CALLED": "seq(())", "OBJS": "seq(())", "S0": "None", "E0": "None"},
+         after={"LoggedAction.fromMessages#*": [("S0", "ite(len(CALLED) == 0, LASTSTART, S0)"), ("E0", "ite(len(CALLED) == 0, LASTEND, E0)"),
+                                                 ("CALLED", "CALLED + [level]"), ("OBJS", "OBJS + [box(result)]")]},
          aliases={"RESULT": 1},
          modifies=[],
-         loops={0: {"locals": {"EXPECT": "seq", "CALLED": "seq"}, "modifies": ["seq(RESULT)"],
+         loops={0: {"locals": {"EXPECT": "seq", "CALLED": "seq", "OBJS": "seq", "S0": "Any", "E0": "Any"}, "modifies": ["seq(RESULT)"],
                     "ghost_init": [("TYPE", "actionType")],
                     "ghost_step": [("EXPECT", "EXPECT + ite(dget(_x, 'action_type') == TYPE and dget(_x, 'action_status') == 'started', [dget(_x, 'task_level')], [])")],
                     "inv": [("one-entry-per-start-message-of-the-type-at-any-depth-in-order", "CALLED == EXPECT and len(seq(RESULT)) == len(CALLED)"),
+                            ("the-entries-are-the-objects-fromMessages-returned-in-call-order", "seq(RESULT) == OBJS and len(OBJS) == len(CALLED)"),
+                            ("first-entry-exposes-its-own-start-and-end-message", FIRST),
                             ("list-not-replaced", "seq(messages) == old(seq(messages))")]}},
-         ensures=[("one-entry-per-start-message-of-the-type-at-any-depth-in-order", "CALLED == EXPECT and len(seq(result)) == len(CALLED)", ["C17"])],
+         ensures=[("one-entry-per-start-message-of-the-type-at-any-depth-in-order", "CALLED == EXPECT and len(seq(result)) == len(CALLED)", ["C17"]),
+                  ("the-entries-are-the-objects-fromMessages-returned-in-call-order", "seq(result) == OBJS", ["C17"]),
+                  ("first-entry-exposes-its-own-start-and-end-message", FIRST, ["C17"])],
          raises=[{"cls": "BaseException", "ensures": []}])
 
 OWN = "dget(_x, 'task_uuid') == UUID and seq(dget(_x, 'task_level'))[:-1] == PREFIX"
@@ -55,11 +64,14 @@ contract(T + "LoggedAction.fromMessages", props=["C17"], types={"klass": "cls", 
                         ("LASTEND", "ite((%s) and (%s == 'succeeded' or %s == 'failed'), _x, LASTEND)" % (OWN, STATUS, STATUS))],
                     "inv": [("children-are-exactly-the-direct-messages-and-direct-child-actions-so-far-in-order", "GOT == EXPK and len(seq(CHILDREN)) == len(GOT)"),
                             ("own-start-and-end-messages", "START == LASTSTART and END == LASTEND"),
+                            ("the-end-message-has-an-end-status", "LASTEND is None or (is_dict(LASTEND) and " + ENDST % ("LASTEND", "LASTEND") + ")"),
+                            ("the-start-message-is-a-message", "LASTSTART is None or is_dict(LASTSTART)"),
                             ("every-message-so-far-was-looked-at", "NSEEN == _i"),
                             ("inputs-not-replaced", "seq(messages) == old(seq(messages)) and seq(level) == old(seq(level))")]}},
          ensures=[("children-are-exactly-the-direct-messages-and-direct-child-actions-in-list-order", "GOT == EXPK and len(seq(result.children)) == len(GOT)", ["C17"]),
                   ("the-whole-message-list-was-scanned", "NSEEN == len(seq(messages))", ["C17"]),
-                  ("own-start-and-end-messages", "result.startMessage == LASTSTART and result.endMessage == LASTEND and LASTSTART is not None and LASTEND is not None", ["C17"])],
+                  ("own-start-and-end-messages", "result.startMessage == LASTSTART and result.endMessage == LASTEND and LASTSTART is not None and LASTEND is not None", ["C17"]),
+                  ("the-end-message-has-an-end-status", "is_dict(LASTSTART) and is_dict(LASTEND) and " + ENDST % ("LASTEND", "LASTEND"), ["C17"])],
          raises=[{"cls": "ValueError", "ensures": [("only-when-the-start-or-end-message-is-missing (here or in a child action)", "True")]},
                  {"cls": "BaseException", "ensures": []}])
 
@@ -77,3 +89,20 @@ contract(T + "assertHasMessage", props=["C17"],
                    "N > 0 and box(result) == seq(FOUND)[0] and implies(fields is not None, restrict(typed(result.message, 'dict'), typed(fields, 'dict')) == dict_of(typed(fields, 'dict')))", ["C17"])],
          raises=[{"cls": "AssertionError", "ensures": [("fails-when-no-message-of-the-type-or-a-field-differs",
                    "N == 0 or (fields is not None and not (restrict(typed(typed(seq(FOUND)[0], 'LoggedMessage').message, 'dict'), typed(fields, 'dict')) == dict_of(typed(fields, 'dict'))))", ["C17"])]}])
+
+STATUS_OK = "iff(dget(typed(FE, 'dict'), 'action_status') == 'succeeded', succeeded)"
+START_OK = "implies(startFields is not None, restrict(typed(FS, 'dict'), typed(startFields, 'dict')) == dict_of(typed(startFields, 'dict')))"
+END_OK = "implies(endFields is not None, restrict(typed(FE, 'dict'), typed(endFields, 'dict')) == dict_of(typed(endFields, 'dict')))"
+contract(T + "assertHasAction", props=["C17"],
+         types={"testCase": "role:TestCase", "logger": "MemoryLogger", "actionType": "Any", "succeeded": "bool", "startFields": "Opt[dict]", "endFields": "Opt[dict]"},
+         returns="LoggedAction",
+         requires=[("type-given-as-text (an ActionType object is handled by LoggedAction.of_type; rendering it for the failure text is not modelled)", "is_str(actionType)")],
+         ghosts={"FOUND": "Any", "N": "int", "FS": "Any", "FE": "Any", "OFT": "bool"}, ghost_defaults={"OFT": "False", "N": "0"},
+         after={"LoggedAction.of_type#0": [("FOUND", "box(result)"), ("N", "len(CALLED)"), ("FS", "S0"), ("FE", "E0")]},
+         after_raise={"LoggedAction.of_type#0": [("OFT", "True")]},
+         modifies=["#CALLS", "#NTOP"],
+         ensures=[("succeeds-exactly-when-the-first-action-of-the-type-has-the-expected-outcome-and-a-superset-of-the-expected-fields-and-returns-it",
+                   "N > 0 and box(result) == seq(FOUND)[0] and result.startMessage == FS and result.endMessage == FE and %s and %s and %s" % (STATUS_OK, START_OK, END_OK), ["C17"])],
+         raises=[{"cls": "AssertionError", "ensures": [("fails-only-when-no-action-of-the-type-or-the-outcome-or-a-field-differs",
+                   "OFT or N == 0 or not (%s) or not (%s) or not (%s)" % (STATUS_OK, START_OK, END_OK), ["C17"])]},
+                 {"cls": "BaseException", "ensures": [("anything-else-comes-out-of-LoggedAction.of_type (unfinished action: known finding C17-F1)", "OFT", ["C17"])]}])
